@@ -19,7 +19,19 @@ from symx.snap import snapshot, unchanged
 PROP = 'C04'
 
 
-def make(conv, shape, holes, skew, mesh_opts=None):
+def make(conv, shape, holes, skew, mesh_opts=None, bounds_coords=False):
+    builders.BOUNDS_AS_COORDS = bounds_coords
+    try:
+        return _make(conv, shape, holes, skew, mesh_opts)
+    finally:
+        builders.BOUNDS_AS_COORDS = False
+
+
+REF = {}
+
+
+def _make(conv, shape, holes, skew, mesh_opts=None):
+    REF.clear()
     from emsarray.conventions.grid import CFGrid1D, CFGrid2D
     from emsarray.conventions.shoc import ShocSimple, ShocStandard
     from emsarray.conventions.ugrid import UGrid
@@ -46,6 +58,7 @@ def make(conv, shape, holes, skew, mesh_opts=None):
         for (j, i) in holes:
             lonb[j, i] = numpy.nan
             latb[j, i] = numpy.nan
+        REF['corners'] = (lonb, latb)
         if conv == 'cf2d':
             ds = builders.cf2d(ny, nx, lat=lat, lon=lon, lat_bounds=latb, lon_bounds=lonb)
             return ds, CFGrid2D(ds)
@@ -63,14 +76,31 @@ def make(conv, shape, holes, skew, mesh_opts=None):
     raise ValueError(conv)
 
 
-def body(ctx, conv, shape, holes, skew, via, mesh_opts=None, history=False):
-    ds, cv = make(conv, shape, holes, skew, mesh_opts)
+def body(ctx, conv, shape, holes, skew, via, mesh_opts=None, history=False, bounds_coords=False):
+    ds, cv = make(conv, shape, holes, skew, mesh_opts, bounds_coords)
     # one data variable on the face grid (a geometry-only dataset has nothing to select)
     fd = cv.grid_dimensions[cv.default_grid_kind]
     ds['temp'] = (tuple(fd), numpy.arange(int(numpy.prod([ds.sizes[d] for d in fd])), dtype=float).reshape([ds.sizes[d] for d in fd]))
     snap = snapshot(ds)
     polygons = cv.polygons           # concrete geometry: real shapely
     N = len(polygons)
+    if conv == 'ugrid':
+        nodes, faces = builders.MESHES[shape]
+        ctx.check(all(polygons[f] is not None and polygons[f].equals(shapely.Polygon([nodes[v] for v in faces[f]])) for f in range(len(faces))),
+                  'the cells searched are the faces of the mesh, each with its own nodes')
+    if 'corners' in REF:
+        # stored corner bounds: the cells searched are the four given corners, wherever the file keeps the bounds
+        lonb, latb = REF['corners']
+        ny, nx = shape
+        ok = True
+        for j in range(ny):
+            for i in range(nx):
+                p = polygons[j * nx + i]
+                if numpy.isnan(lonb[j, i]).any():
+                    ok = ok and p is None
+                else:
+                    ok = ok and p is not None and p.equals(shapely.Polygon(list(zip(lonb[j, i], latb[j, i]))))
+        ctx.check(ok, 'the cells searched are the stored corner bounds of the grid')
     if conv == 'cf1d' and min(shape) >= 2:
         # "a cell polygon contains the point" is about the cells the dataset describes: for derived 1-D bounds those
         # are the midpoint rectangles (written here from the CF text, not taken from the code under test)
@@ -164,6 +194,18 @@ def cases(tier):
             yield Case(f'{conv}:{sh}:holes{len(holes)}:{"skew" if skew else "rect"}:{via}', body,
                        dict(conv=conv, shape=shape, holes=holes, skew=skew, via=via), max_paths=20000,
                        split=(32 if not q else 16), patches=PATCHES)
+    # stored bounds held as xarray coordinates
+    for conv, shape, holes, skew in (('cf2d', (2, 2), (), True), ('shoc_simple', (2, 2), ((1, 1),), True)):
+        yield Case(f'{conv}:{shape[0]}x{shape[1]}:holes{len(holes)}:skew:get_index_for_point:bounds-as-coordinates', body,
+                   dict(conv=conv, shape=shape, holes=holes, skew=skew, via='get_index_for_point', bounds_coords=True),
+                   max_paths=20000, split=16, patches=PATCHES)
+    # unsigned connectivity tables with a fill value attribute (ragged mesh, one-based with fill 0; zero-based with fill 65535)
+    for mo in (dict(start_index=1, fill='attr', fill_value=0, dtype='uint16'), dict(start_index=0, fill='attr', fill_value=65535, dtype='uint16'),
+               dict(start_index=1, fill='attr', fill_value=0, dtype='int32')):
+        tag = '+'.join(f'{k}={v}' for k, v in mo.items())
+        yield Case(f'ugrid:tqp:{tag}:get_index_for_point', body,
+                   dict(conv='ugrid', shape='tqp', holes=(), skew=False, via='get_index_for_point', mesh_opts=mo),
+                   max_paths=20000, split=16, patches=PATCHES)
     # one-based connectivity stored without a fill value (integer arrays straight from the file)
     for mesh in (['fan'] if q else ['fan', 'tri', 'strip5']):
         for mo in (dict(start_index=1, fill='none'), dict(start_index=1, fill='none', transposed=True)):
